@@ -100,8 +100,10 @@ func mkStruct(e []*Item) *Item { return &Item{T: TStruct, Elems: e} }
 func mkMap() *Item             { return &Item{T: TMap} }
 func mkPointer(pos int) *Item  { return &Item{T: TPointer, Pos: pos} }
 
-func (it *Item) isNull() bool      { return it.T == TAny }
-func (it *Item) isPrimitive() bool { return it.T == TBoolean || it.T == TInteger || it.T == TByteString }
+func (it *Item) isNull() bool { return it.T == TAny }
+func (it *Item) isPrimitive() bool {
+	return it.T == TBoolean || it.T == TInteger || it.T == TByteString
+}
 func (it *Item) isCompound() bool  { return it.T == TArray || it.T == TStruct || it.T == TMap }
 func (it *Item) isArrayLike() bool { return it.T == TArray || it.T == TStruct } // Struct derives from Array
 
